@@ -201,7 +201,14 @@ def extract(root):
         if x not in seen: seen.append(x)
     fr["printlnUnguarded"] = seen
     fr["ambient"] = sites(r"static mut|thread_local|lazy_static|OnceCell|OnceLock|SystemTime|Instant::|env::var")
-    fr["hashIter"] = sites(r"(variables_stack|system_functions|reserved_words|sys_funcs|\bvars?\b|\bsf\b)[\w\[\]\.]*\.(iter|keys|values|into_iter|drain|iter_mut)\(\)")
+    # every name declared anywhere in the library with a hash-map / hash-set type (fields, locals, parameters), plus the known ones
+    hnames = set(["variables_stack", "system_functions", "reserved_words", "sys_funcs", "vars", "var", "sf"])
+    for f, t in allsrc.items():
+        t2 = strip_tests(t)
+        hnames.update(re.findall(r"\b(\w+)\s*:\s*&?(?:mut\s+)?(?:std::collections::)?Hash(?:Map|Set)\s*<", t2))
+        hnames.update(re.findall(r"\blet\s+(?:mut\s+)?(\w+)[^=;\n]*=\s*(?:std::collections::)?Hash(?:Map|Set)\s*::", t2))
+    hn = "|".join(sorted(re.escape(x) for x in hnames))
+    fr["hashIter"] = sites(r"\b(%s)\b[\w\[\]\.]*\.(iter|keys|values|into_iter|drain|iter_mut|into_keys|into_values|retain)\(|\bfor\b[^;{]*\bin\s+&?(?:mut\s+)?(?:self\.|song\.)?(%s)\b\s*\{" % (hn, hn))
     fr["unsafeOrSwap"] = sites(r"\bunsafe\b|mem::swap|mem::replace|mem::take")
     # writers of pos / loop_stack inside runner::exec
     ex = fn_body(run, "exec")
